@@ -23,6 +23,7 @@ func init() {
 
 func runC16(c *core.Ctx) {
 	const pk = "pdf/pagetree"
+	defer rulePageNumberAdvance(c)
 	c.Check("C16-R1", pk+".(*Writer).mergeNodes", "/Kids, /Count, the node's page count and the children's /Parent come from one and the same child slice", func(o *core.Ob) {
 		fn := c.Prog.Func(pk, "(*Writer).mergeNodes")
 		g := fn.Graph()
@@ -153,18 +154,47 @@ func runC16(c *core.Ctx) {
 			return
 		}
 		o.At(fn.Site(st[0].Stmt, "hoist"))
-		// the first loop returns when a child lacks the key: so the hoist is unreachable when cutting the !ok-return
-		hasReturn := false
-		for _, bv := range g.BranchVertices() {
-			if bv.Cond.Expr != nil && strings.ReplaceAll(core.ExprStr(bv.Cond.Expr), " ", "") == "!ok" {
-				for v := range g.ReachFrom(succ(bv, core.EdgeTrue), true, core.AvoidVs(succ(bv, core.EdgeFalse))) {
-					if _, isRet := v.AST.(*ast.ReturnStmt); isRet && g.EdgeDominates(v, core.EdgeRef{From: bv, Label: core.EdgeTrue}) {
-						hasReturn = true
+		// Once a child is seen to lack the key (the comma-ok result of the lookup in the
+		// child's dictionary is false) the hoist must be unreachable, whatever kind of
+		// child it is: an intermediate node without the key has kids that rely on the
+		// key being absent or that carry their own values, and would all inherit the hoisted one.
+		var okVar types.Object
+		ast.Inspect(fn.Decl.Body, func(n ast.Node) bool {
+			if as, isAs := n.(*ast.AssignStmt); isAs && len(as.Lhs) == 2 && len(as.Rhs) == 1 {
+				if ix, isIx := ast.Unparen(as.Rhs[0]).(*ast.IndexExpr); isIx {
+					if sel, isSel := ast.Unparen(ix.X).(*ast.SelectorExpr); isSel && sel.Sel.Name == "dict" {
+						okVar = core.ObjOf(info, as.Lhs[1])
 					}
 				}
 			}
+			return true
+		})
+		if okVar == nil {
+			core.Undecided("lookup of the key in the child dictionaries not found")
 		}
-		o.Require(hasReturn, "inheritKey does not give up when a child lacks the key")
+		tested := 0
+		for _, bv := range g.BranchVertices() {
+			if bv.Cond.Expr == nil {
+				continue
+			}
+			for _, l := range []core.EdgeLabel{core.EdgeTrue, core.EdgeFalse} {
+				lacks := false
+				for _, a := range bv.Implied(l) {
+					if id, isID := ast.Unparen(a.Expr).(*ast.Ident); isID && info.ObjectOf(id) == okVar && a.Neg {
+						lacks = true
+					}
+				}
+				if !lacks {
+					continue
+				}
+				tested++
+				o.At(fn.Site(bv.Cond.Expr, "child lacks the key"))
+				if g.ReachFrom(succ(bv, l), true, nil)[st[0].V] {
+					o.FailAt(fn.Site(st[0].Stmt, ""), "%s: the value is hoisted into the parent although a child without the key was seen at %s", c.Prog.Pos(st[0].Stmt.Pos()), c.Prog.Pos(bv.Cond.Expr.Pos()))
+				}
+			}
+		}
+		o.Require(tested >= 1, "inheritKey does not test whether a child lacks the key")
 		src := c.Prog.Src(fn.Decl.Body)
 		o.Require(strings.Contains(src, "ifrepr[i]==bestRepr{delete(child.dict,key)}"), "only children carrying the hoisted value may lose their entry")
 		_ = info
@@ -291,4 +321,88 @@ func stringSliceVar(c *core.Ctx, short, name string) []string {
 		out = append(out, s)
 	}
 	return out
+}
+
+// rulePageNumberAdvance (C16-R5): the page number handed to page-number
+// callbacks is a future value; futureInt.Inc and futureInt.Add return the
+// value to use from now on (a new object whenever callbacks are pending on
+// the old one).  Every appended page must install the result of Inc in
+// Writer.nextPageNumber on every path, in both append entry points, and no
+// result of Inc/Add may be dropped: otherwise pages appended after a
+// callback was registered report stale positions.
+func rulePageNumberAdvance(c *core.Ctx) {
+	const pk = "pdf/pagetree"
+	for _, name := range []string{"(*Writer).AppendPageRef", "(*Writer).AppendPageDict"} {
+		name := name
+		c.Check("C16-R5", pk+"."+name+"/page-number", "appending a page installs nextPageNumber.Inc() as the new nextPageNumber on every path that appends", func(o *core.Ob) {
+			fn := c.Prog.Func(pk, name)
+			g := fn.Graph()
+			info := fn.Info()
+			var installs []*core.V
+			for _, v := range g.Vs {
+				as, ok := v.AST.(*ast.AssignStmt)
+				if !ok || len(as.Lhs) != 1 || len(as.Rhs) != 1 || as.Tok != token.ASSIGN {
+					continue
+				}
+				sel, ok := ast.Unparen(as.Lhs[0]).(*ast.SelectorExpr)
+				if !ok || sel.Sel.Name != "nextPageNumber" {
+					continue
+				}
+				call, ok := core.IsCallTo(info, as.Rhs[0], pk+".(*futureInt).Inc")
+				if !ok {
+					continue
+				}
+				if rs, ok := call.Fun.(*ast.SelectorExpr); !ok || core.ExprStr(rs.X) != core.ExprStr(as.Lhs[0]) {
+					continue
+				}
+				installs = append(installs, v)
+				o.At(fn.Site(as, "page number advanced"))
+			}
+			o.Count(1)
+			if len(installs) == 0 {
+				o.Fail("%s does not install nextPageNumber.Inc()", fn.Key)
+				return
+			}
+			// the page is appended to the tail: every return after that append passes an install
+			for _, v := range g.Vs {
+				as, ok := v.AST.(*ast.AssignStmt)
+				if !ok || len(as.Lhs) != 1 {
+					continue
+				}
+				if sel, ok := ast.Unparen(as.Lhs[0]).(*ast.SelectorExpr); !ok || sel.Sel.Name != "tail" {
+					continue
+				}
+				if _, isApp := core.IsCallTo(info, as.Rhs[0], "append"); !isApp {
+					if call, ok := ast.Unparen(as.Rhs[0]).(*ast.CallExpr); !ok || core.ExprStr(call.Fun) != "append" {
+						continue
+					}
+				}
+				o.Count(1)
+				o.At(fn.Site(as, "page appended"))
+				o.Require(g.MustPassBefore(v, []*core.V{g.Exit}, installs), "a path from appending the page to the return does not advance the page number")
+				break
+			}
+		})
+	}
+	c.Check("C16-R5", pk+".futureInt/results-used", "the results of futureInt.Inc and futureInt.Add are never dropped", func(o *core.Ob) {
+		pkg := c.Prog.Pkg(pk)
+		for _, fn := range c.Prog.Funcs(pkg) {
+			ast.Inspect(fn.Decl.Body, func(n ast.Node) bool {
+				es, ok := n.(*ast.ExprStmt)
+				if !ok {
+					if _, isCall := n.(*ast.CallExpr); isCall {
+						if _, ok := core.IsCallTo(fn.Info(), n.(*ast.CallExpr), pk+".(*futureInt).Inc", pk+".(*futureInt).Add"); ok {
+							o.Count(1)
+						}
+					}
+					return true
+				}
+				if call, ok := core.IsCallTo(fn.Info(), es.X, pk+".(*futureInt).Inc", pk+".(*futureInt).Add"); ok {
+					o.FailAt(fn.Site(call, ""), "%s: the result of %s is dropped; the receiver is only updated in place while no callback is pending", c.Prog.Pos(call.Pos()), c.Prog.Src(call))
+				}
+				return true
+			})
+		}
+		o.Require(o.Evals >= 2, "calls to futureInt.Inc/Add not found")
+	})
 }
